@@ -1,10 +1,48 @@
 """C18 - Manager traffic statistics are exact."""
+import random
 from ..framework import Check
-from .. import mgr_check
+from .. import mgr_check, mgr_common as C
 
 THEOREMS = ["C18_traffic_exact", "C18_timing_exact", "C18_timing_slots", "C18_stats_not_counted",
             "C18_counter_incr", "C18_ex_130", "C18_ex_empty", "C18_ex_64"]
 CHECKERS = ["C18", "C03"]
+
+
+def directed(rng: random.Random, tier: str):
+    """nobody listens to the statistics for a few intervals (the monitor pauses its subscription), traffic flows, the
+    intervals elapse; after the monitor resumes, each report must again contain exactly the interval it closes - counts
+    from the unobserved intervals must not resurface"""
+    out = []
+    for nquiet in (1, 3):
+        for lvl in (60,):
+            hs = C.History(loglevel=lvl, timing=False, tag="late-listener")
+            now = 0
+            hs.round([], [], now, accept=True)
+            hs.round([(1, hs.connect_v2(logger=1, mod_id=10))], [1], now)
+            hs.round([(1, hs.sub("sub", C.ALL))], [1], now)
+            hs.round([], [], now, accept=True)
+            hs.round([(2, hs.connect_v1(src_mod=11))], [1, 2], now)
+            hs.round([(2, hs.publish(300, b"a"))], [1, 2], now)
+            now += 6
+            hs.round([], [1, 2], now)                          # first report: interval began before the monitor came
+            hs.round([(2, hs.publish(300, b"b"))], [1, 2], now)
+            now += 6
+            hs.round([], [1, 2], now)                          # second report: {300: 1, ...}
+            hs.round([(1, hs.sub("pause", C.ALL))], [1, 2], now)
+            for k in range(3):
+                hs.round([(2, hs.publish(301, bytes([k])))], [1, 2], now)    # nobody is listening
+            for _ in range(nquiet):
+                now += 6
+                hs.round([], [1, 2], now)                      # intervals end unobserved
+            hs.round([(1, hs.sub("resume", C.ALL))], [1, 2], now)
+            now += 6
+            hs.round([], [1, 2], now)                          # nothing was forwarded in this interval
+            hs.round([(2, hs.publish(302, b"c")), ], [1, 2], now)
+            hs.round([(2, hs.publish(302, b"d")), ], [1, 2], now)
+            now += 6
+            hs.round([], [1, 2], now)                          # {302: 2}
+            out.append(hs)
+    return out
 
 
 def run(chk: Check):
@@ -13,6 +51,7 @@ def run(chk: Check):
         model_profiles={"periodic": 260, "routing": 60},
         oracle_flavors={"stats": 260},
         checkers=CHECKERS,
+        extra_histories=directed,
         assumptions=[
             "message type id -1 is the wire terminator of MESSAGE_TRAFFIC and cannot be reported (excluded in C18_traffic_exact)",
             "messages the manager forwards WHILE a statistics message is being delivered (FAILED_MESSAGE / CLIENT_CLOSED / "
